@@ -133,83 +133,164 @@ def exc_rich(ex) -> str:
     return "EXC " + type(ex).__name__ + ":" + HEX.sub("0x", str(ex.args[0]) if ex.args else "")[:120]
 
 
+def mk_functions(spec):
+    """host functions of a program: {"form": "dict"|"list", "fns": [[name, behaviour, param], ...]} -> the `functions=` argument.
+    Fresh function objects every time; `__name__` is the CEL name (that is what the list form is keyed by)."""
+    if not spec:
+        return None
+    from celpy import celtypes as ct
+    fs = []
+    for name, beh, param in spec["fns"]:
+        if beh == "const":
+            def f(*a, _p=param):
+                return ct.IntType(_p)
+        elif beh == "bytes":
+            def f(x, _p=param):
+                return ct.IntType(len(str(x).encode("utf-8")) + _p)
+        elif beh == "plus":
+            def f(x, _p=param):
+                return ct.IntType(int(x) + _p)
+        else:
+            raise ValueError(beh)
+        f.__name__ = name
+        f.__qualname__ = name
+        fs.append(f)
+    if spec["form"] == "list":
+        return fs
+    return {f.__name__: f for f in fs}
+
+
+class History:
+    """executes API operations one at a time; `step(op)` returns [model_format, rich_format]"""
+
+    def __init__(self):
+        self.envs, self.asts, self.progs = [], [], []
+        self.decl_objs, self.bind_objs = {}, {}
+
+    def step(self, op):
+        try:
+            return self._step(op)
+        except RecursionError:
+            return ["EXC RecursionError", "EXC RecursionError"]
+        except Exception as ex:  # noqa
+            return ["EXC " + type(ex).__name__, exc_rich(ex)]
+
+    def _step(self, op):
+        import celpy
+        from celpy.evaluation import CELEvalError
+        envs, asts, progs = self.envs, self.asts, self.progs
+        k = op[0]
+        if k == "E":
+            _, kind, pkg, decls = op[:4]
+            reuse = op[4] if len(op) > 4 else None
+            if reuse is not None and reuse in self.decl_objs:
+                d = self.decl_objs[reuse]           # the very same dict object handed to an earlier Environment
+            else:
+                d = {n: ann_table()[a] for n, a in decls}
+            self.decl_objs[len(envs)] = d
+            rc = celpy.CompiledRunner if kind == "C" else celpy.InterpretedRunner
+            env = celpy.Environment(package=pkg, annotations=d, runner_class=rc)
+            envs.append(env)
+            return ["done", "done"]
+        if k == "R":
+            celpy.CELParser.CEL_PARSER = None
+            return ["done", "done"]
+        if k == "P":
+            if op[1] >= len(envs):
+                return ["nosuch", "nosuch"]
+            text = "1 +" if op[2] is None else expr_text(op[2])
+            try:
+                ast = envs[op[1]].compile(text)
+            except celpy.CELParseError:
+                return ["parse-error", "parse-error"]
+            asts.append(ast)
+            return ["done", "done"]
+        if k == "G":
+            if op[1] >= len(envs) or op[2] >= len(asts):
+                return ["nosuch", "nosuch"]
+            fns = mk_functions(op[3]) if len(op) > 3 else None
+            p = envs[op[1]].program(asts[op[2]], functions=fns) if fns is not None else envs[op[1]].program(asts[op[2]])
+            progs.append(p)
+            return ["done", "done"]
+        if k == "V":
+            if op[1] >= len(progs):
+                return ["nosuch", "nosuch"]
+            key = json.dumps(op[2])
+            if key not in self.bind_objs:
+                self.bind_objs[key] = {n: mk_val(v) for n, v in op[2]}
+            b = self.bind_objs[key]                 # identical bindings = the same dict object, re-used
+            snap_keys = list(b.keys())
+            snap = [rich(x) for x in b.values()]
+            snap_ids = [id(x) for x in b.values()]
+            tail = ""
+            try:
+                v = progs[op[1]].evaluate(b)
+                res = [modelfmt(v), rich(v)]
+            except CELEvalError as ex:
+                res = ["err", exc_rich(ex)]
+            if list(b.keys()) != snap_keys or [rich(x) for x in b.values()] != snap or [id(x) for x in b.values()] != snap_ids:
+                tail = " !BINDINGS-MODIFIED"
+            return [res[0] + tail, res[1] + tail]
+        return ["bad-op", "bad-op"]
+
+
 def run_history(ops):
     """execute the ops in this process; returns [[model_format, rich_format], ...]"""
-    import copy
-    import celpy
-    from celpy.evaluation import CELEvalError
-    envs, asts, progs = [], [], []
-    decl_objs, bind_objs = {}, {}
-    out = []
-    for op in ops:
-        k = op[0]
+    h = History()
+    return [h.step(op) for op in ops]
+
+
+def run_threads(threads, order, timeout=60.0):
+    """`threads[t]` is the op list of logical thread t (its own environments, trees, programs: indices are local to it);
+    `order` is the global order of steps as a list of thread numbers.  Every logical thread is a real OS thread; the steps
+    are gated so that they happen one at a time in the given order.  Returns per thread [[model, rich], ...]."""
+    import queue
+    import threading
+    n = len(threads)
+    inq = [queue.Queue() for _ in range(n)]
+    outq = queue.Queue()
+
+    def worker(t):
+        h = History()
+        while True:
+            op = inq[t].get()
+            if op is None:
+                return
+            outq.put((t, h.step(op)))
+    ths = [threading.Thread(target=worker, args=(t,), daemon=True) for t in range(n)]
+    for t in ths:
+        t.start()
+    res = [[] for _ in range(n)]
+    pos = [0] * n
+    for t in order:
+        if pos[t] >= len(threads[t]):
+            continue
+        inq[t].put(threads[t][pos[t]])
+        pos[t] += 1
         try:
-            if k == "E":
-                _, kind, pkg, decls = op[:4]
-                reuse = op[4] if len(op) > 4 else None
-                if reuse is not None and reuse in decl_objs:
-                    d = decl_objs[reuse]           # the very same dict object handed to an earlier Environment
-                else:
-                    d = {n: ann_table()[a] for n, a in decls}
-                decl_objs[len(envs)] = d
-                rc = celpy.CompiledRunner if kind == "C" else celpy.InterpretedRunner
-                env = celpy.Environment(package=pkg, annotations=d, runner_class=rc)
-                envs.append(env)
-                out.append(["done", "done"])
-            elif k == "R":
-                celpy.CELParser.CEL_PARSER = None
-                out.append(["done", "done"])
-            elif k == "P":
-                if op[1] >= len(envs):
-                    out.append(["nosuch", "nosuch"])
-                    continue
-                text = "1 +" if op[2] is None else expr_text(op[2])
-                try:
-                    ast = envs[op[1]].compile(text)
-                except celpy.CELParseError:
-                    out.append(["parse-error", "parse-error"])
-                    continue
-                asts.append(ast)
-                out.append(["done", "done"])
-            elif k == "G":
-                if op[1] >= len(envs) or op[2] >= len(asts):
-                    out.append(["nosuch", "nosuch"])
-                    continue
-                p = envs[op[1]].program(asts[op[2]])
-                progs.append(p)
-                out.append(["done", "done"])
-            elif k == "V":
-                if op[1] >= len(progs):
-                    out.append(["nosuch", "nosuch"])
-                    continue
-                key = json.dumps(op[2])
-                if key not in bind_objs:
-                    bind_objs[key] = {n: mk_val(v) for n, v in op[2]}
-                b = bind_objs[key]                 # identical bindings = the same dict object, re-used
-                snap_keys = list(b.keys())
-                snap = [rich(x) for x in b.values()]
-                snap_ids = [id(x) for x in b.values()]
-                tail = ""
-                try:
-                    v = progs[op[1]].evaluate(b)
-                    res = [modelfmt(v), rich(v)]
-                except CELEvalError as ex:
-                    res = ["err", exc_rich(ex)]
-                if list(b.keys()) != snap_keys or [rich(x) for x in b.values()] != snap or [id(x) for x in b.values()] != snap_ids:
-                    tail = " !BINDINGS-MODIFIED"
-                out.append([res[0] + tail, res[1] + tail])
-            else:
-                out.append(["bad-op", "bad-op"])
-        except RecursionError:
-            out.append(["EXC RecursionError", "EXC RecursionError"])
-        except Exception as ex:  # noqa
-            out.append(["EXC " + type(ex).__name__, exc_rich(ex)])
-    return out
+            tt, r = outq.get(timeout=timeout)
+        except queue.Empty:
+            raise TimeoutError(f"step of thread {t} did not finish")
+        res[tt].append(r)
+    for t in range(n):                 # whatever the order left over
+        while pos[t] < len(threads[t]):
+            inq[t].put(threads[t][pos[t]])
+            pos[t] += 1
+            tt, r = outq.get(timeout=timeout)
+            res[tt].append(r)
+        inq[t].put(None)
+    return res
+
+
+def run_job(job):
+    if "threads" in job:
+        return {"id": job["id"], "tobs": run_threads(job["threads"], job["order"])}
+    return {"id": job["id"], "obs": run_history(job["ops"])}
 
 
 def _child(job, wfd):
     try:
-        res = {"id": job["id"], "obs": run_history(job["ops"])}
+        res = run_job(job)
     except BaseException as ex:  # noqa
         res = {"id": job["id"], "crash": f"{type(ex).__name__}: {ex}"}
     data = (json.dumps(res) + "\n").encode()
@@ -277,7 +358,7 @@ def main(argv):
     if "--one" in argv:
         _setup()
         job = json.loads(sys.stdin.read())
-        print(json.dumps({"id": job["id"], "obs": run_history(job["ops"])}))
+        print(json.dumps(run_job(job)))
         return 0
     jobs = 8
     if "--jobs" in argv:
